@@ -125,6 +125,25 @@ def numeric_unit_lines(draw):
     return {"kind": kind, "form": "numeric-unit-1blank" if single else "numeric-unit-2blanks", "line": ln}
 
 
+@st.composite
+def leading_dot_unit_lines(draw):
+    """Documented form (header-section.rst, "Units containing periods"): `TDEP  ..1IN : 0.1-in` parses as mnemonic
+    TDEP, unit .1IN. Blank-separated form in every section; the adjoining form `TDEP..1IN` outside ~Curves only
+    (in ~Curves 'X..' is the documented mnemonic-ending-in-a-period rule)."""
+    kind = draw(KINDS)
+    ln = draw(S.item_line(kind=kind if kind != "N" else "X", v12=False, times=False))
+    ln["u"] = draw(st.sampled_from([".1IN", ".5m", ".01ft", ".1IN/s", ".x"]))
+    adjoining = kind != "C" and draw(st.booleans())
+    ln["p"][1] = "" if adjoining else draw(S.pad1)
+    if ln["v"] != "" and ln["p"][2] == "":
+        ln["p"][2] = " "
+    if kind == "C":
+        # the description of a curve may contain '..' (the statement only excludes it from ~Curves VALUES)
+        if draw(st.booleans()):
+            ln["d"] = (ln["d"] + " see note..").strip()
+    return {"kind": kind, "form": "leading-dot-unit" + ("-adjoining" if adjoining else ""), "line": ln}
+
+
 def clock_cases(tier):
     """Every HH:MM (24 x 60) x seconds {none, :SS} x date placement {none, before, after} x {Parameter, Well}."""
     for h in range(24):
@@ -186,6 +205,7 @@ def parts(tier):
         Hyp("lines", plain_lines, quick=20000, thorough=600000),
         Hyp("no-period-lines", np_lines, quick=3000, thorough=60000),
         Hyp("numeric-unit-lines", numeric_unit_lines, quick=3000, thorough=60000),
+        Hyp("leading-dot-unit-lines", leading_dot_unit_lines, quick=3000, thorough=60000),
         Enum("clock-times-24x60", clock_cases),
         Hyp("lines-in-files", files, quick=1500, thorough=40000),
     ]
